@@ -177,3 +177,14 @@ func (s *ServantProxy) VerifClientsClosed() map[string]bool {
 	}
 	return out
 }
+
+// VerifAdapterQueueCaps returns, per servant object of the process-wide application, the queue
+// capacity its adapter ended up with after the configuration file was read.
+func VerifAdapterQueueCaps() map[string]int {
+	defaultApp.init()
+	out := map[string]int{}
+	for obj, c := range defaultApp.tarsConfig {
+		out[obj] = c.QueueCap
+	}
+	return out
+}
